@@ -1,6 +1,9 @@
 import GoguVerif.Go.Run
 import GoguVerif.Spec.C08
-/-! Driver wiring for C08 (expiring cache): non-deterministic monitor over the set of possible states. -/
+import GoguVerif.Model.Cache
+/-! Driver wiring for C08 (expiring cache): the model of `cache/cache.go` run beside the
+non-deterministic monitor over the set of possible states.  Compared observables: error flags,
+`Get` value/flag, `Count`, `List` as (key, value) pairs sorted by key, `IsExpired`. -/
 namespace GoguVerif.Kinds.Cache
 open GoguVerif Spec.C08
 
@@ -10,6 +13,12 @@ def parsePairs (v : Val) : Option (List (Int × Int)) :=
       | .list [.int a, .int b] => some (a, b)
       | _ => none)
   | _ => none
+
+/-- the harness builds a Go map from the listed pairs (`m[k] = v`): a later pair with the same key
+overwrites an earlier one -/
+def dedupLast : List (Int × Int) → List (Int × Int)
+  | [] => []
+  | p :: r => if r.any (·.1 == p.1) then dedupLast r else p :: dedupLast r
 
 def parseOp (l : Line) : Option Op :=
   match l.op, l.args with
@@ -22,7 +31,7 @@ def parseOp (l : Line) : Option Op :=
   | "delexp", [] => some .deleteExpired
   | "count", [] => some .count
   | "list", [] => some .list
-  | "maptocache", [kvs, .int d] => (parsePairs kvs).map (.mapToCache · d)
+  | "maptocache", [kvs, .int d] => (parsePairs kvs).map (fun ps => .mapToCache (dedupLast ps) d)
   | "isexpired", [.int k] => some (.isExpired k)
   | "sleep", [.int ms] => some (.sleep ms)
   | _, _ => none
@@ -40,14 +49,41 @@ def renderOut : Out → List Val
 
 structure MSt where
   cfg : Cfg
+  mcfg : Model.Cache.Cfg
+  model : Model.Cache.St
   cands : List St := [{}]
   sawExpiry : Bool := false
   sawReject : Bool := false
 
+/-- which branch of the model an operation took (for the input-distribution part of the evidence) -/
+def branchTags (cfg : Model.Cache.Cfg) (s s' : Model.Cache.St) (op : Op) : List String :=
+  let live := fun (k : Int) => (Model.Cache.get s.now s.items k).isSome
+  let stored := fun (k : Int) => (Model.Cache.lookup k s.items).isSome
+  match op with
+  | .set k v _ =>
+    if live k then ["set:blocked-by-live-entry"]
+    else if Model.Cache.rejected cfg v then ["set:rejected-value"]
+    else if stored k then ["set:over-expired-entry"] else ["set:fresh"]
+  | .update k v _ =>
+    if Model.Cache.rejected cfg v then ["update:rejected-value"]
+    else if live k then ["update:over-live"] else if stored k then ["update:over-expired"] else ["update:fresh"]
+  | .get k => if live k then ["get:live"] else if stored k then ["get:expired-unpurged"] else ["get:missing"]
+  | .isExpired k => if Model.Cache.isExpired s.now s.items k then ["isexpired:T"] else []
+  | .deleteExpired => if s'.items.length < s.items.length then ["delexp:purged"] else []
+  | .sleep _ =>
+    (if s'.items.length < s.items.length then ["sleep:janitor-purged"] else []) ++
+    (if s'.nextTick != s.nextTick then ["sleep:tick"] else []) ++
+    (if s.items.any (fun p => p.2.expiration == s'.now) then ["sleep:to-deadline-instant"] else [])
+  | .mapToCache _ _ => if s'.items.length > s.items.length then ["maptocache:stored"] else ["maptocache:none-stored"]
+  | _ => []
+
 def kind : Kind where
   σ := MSt
   init := fun ps => match ps with
-    | [.int e, .int c, .atom vt] => some { cfg := { defExp := e, cleanup := c, strVals := vt == "str" } }
+    | [.int e, .int c, .atom vt] =>
+      let mcfg : Model.Cache.Cfg := { expTime := e, cleanupInt := c, strVals := vt == "str" }
+      some { cfg := { defExp := e, cleanup := c, strVals := vt == "str" }, mcfg := mcfg
+             model := Model.Cache.init mcfg }
     | _ => none
   step := fun st l =>
     match l.res with
@@ -57,11 +93,15 @@ def kind : Kind where
     match parseOp l with
     | none => { st := st, bad := some s!"bad cache op {l.op}" }
     | some op =>
+      let (m', mo) := Model.Cache.step st.mcfg st.model op
+      let btags := branchTags st.mcfg st.model m' op
+      let st := { st with model := m' }
+      let mres := some (renderOut mo)
       let next := ndStep st.cands (fun s => (stepAll st.cfg s op).map fun p => (p.1, renderOut p.2)) l.res
       if next.isEmpty then
         -- keep going from the deterministic successor so that the case can be shrunk sensibly
         let fallback := st.cands.map (fun s => (step st.cfg true s op).1)
-        { st := { st with cands := fallback.take 1 }, tags := [l.op], spec := some s!"deadline-map:{l.op}" }
+        { st := { st with cands := fallback.take 1 }, model := mres, tags := l.op :: btags, spec := some s!"deadline-map:{l.op}" }
       else
         let exp := match op, l.res with
           | .get _, [_, .atom "err"] => next.any (fun s => match op with
@@ -74,6 +114,6 @@ def kind : Kind where
           | .update _ _ _, [.atom "err"] => true
           | _, _ => false
         let st' := { st with cands := next, sawExpiry := st.sawExpiry || exp, sawReject := st.sawReject || rej }
-        { st := st', tags := [l.op], nontrivial := st'.sawExpiry || st'.sawReject }
+        { st := st', model := mres, tags := l.op :: btags, nontrivial := st'.sawExpiry || st'.sawReject }
 
 end GoguVerif.Kinds.Cache
